@@ -262,7 +262,7 @@ func TestC07StorageLin(t *testing.T) {
 func TestC07LiveIsolation(t *testing.T) {
 	e := vrun.LoadEnv()
 	meta := vrun.Meta{Property: "C07", Workload: "TestC07LiveIsolation", Total: e.Pick(120, 10000),
-		Rule: "real time: one connection, 2-4 upstreams of mixed QoS and flush policies writing concurrently, 1-3 downstreams each fed chunks and metadata tagged with its own index, plus a churn goroutine that keeps opening, writing and closing further streams; acks batched per stream. Oracle per stream, from that stream's own ledger only: the C01 conservation/hook oracle for every upstream (an ack result of another stream showing up in a stream's hook is a 'phantom'), every downstream reads exactly the chunks addressed to it, in order. non-trivial = >= 2 upstreams and >= 1 downstream with >= 10 chunks each way and >= 3 churn cycles; distinct = (stream mix, churn cycles)",
+		Rule: "real time: one connection, 2-4 upstreams of mixed QoS and flush policies writing concurrently, 1-3 downstreams each fed chunks and metadata tagged with its own index, plus a churn goroutine that keeps opening, writing and closing further streams and issuing opens the broker refuses (in half of the cases the broker hands out stream alias 0 to the first upstream); acks batched per stream. Oracle per stream, from that stream's own ledger only: the C01 conservation/hook oracle for every upstream (an ack result of another stream showing up in a stream's hook is a 'phantom'), every downstream reads exactly the chunks addressed to it, in order. non-trivial = >= 2 upstreams and >= 1 downstream with >= 10 chunks each way and >= 3 churn cycles; distinct = (stream mix, churn cycles)",
 	}
 	vrun.Loop(t, meta, 0, func(c *vrun.Case) vrun.Result {
 		var res vrun.Result
@@ -286,6 +286,16 @@ func runLive(c *vrun.Case) vrun.Result {
 	w.B.P.AckBatchK = 1 + r.Intn(3)
 	w.B.P.Alias = broker.AliasAfterNth
 	w.B.P.AliasN = 2
+	// stream alias 0 is a legal value: in half of the cases the first upstream of the connection gets it
+	w.B.P.UpAliasFromZero = r.Intn(2) == 0
+	// opens of the churn goroutine whose session id starts with "refused" are refused by the broker
+	w.B.OnMsg = func(lc *broker.LinkCtx, m message.Message, unrel bool) bool {
+		if t, ok := m.(*message.UpstreamOpenRequest); ok && strings.HasPrefix(t.SessionID, "refused") {
+			lc.Send(&message.UpstreamOpenResponse{RequestID: t.RequestID, ResultCode: message.ResultCodeProcessFailed, ResultString: "refused"})
+			return true
+		}
+		return false
+	}
 	w.Start()
 	conn, err := w.Connect(iscp.WithConnPingInterval(time.Hour))
 	if err != nil {
@@ -425,6 +435,12 @@ func runLive(c *vrun.Case) vrun.Result {
 			d, err := conn.OpenDownstream(ctx, []*message.DownstreamFilter{{SourceNodeID: "churn", DataFilters: []*message.DataFilter{{Name: "#", Type: "#"}}}})
 			if err == nil {
 				d.Close(ctx)
+			}
+			if churn%2 == 1 {
+				// an open the broker refuses: must not touch any other stream's registrations
+				if up2, err := conn.OpenUpstream(ctx, fmt.Sprintf("refused-%d", churn), iscp.WithUpstreamFlushPolicyImmediately()); err == nil {
+					up2.Close(ctx)
+				}
 			}
 			churn++
 		}
